@@ -41,3 +41,6 @@ func VerifRepeatedDecode(s string) string { return repeatedDecode(s) }
 func VerifCanonicalize(p url.Parser, u *url.Url) (*url.Url, error) {
 	return p.(*profile).Canonicalize(u)
 }
+
+// VerifHostDecodeSet exposes the set used to re-encode a repeatedly decoded host.
+func VerifHostDecodeSet() *url.PercentEncodeSet { return hostDecodeSet }
